@@ -134,6 +134,12 @@ fn compare(
 }
 
 pub fn check_program(prog: &Rc<Prog>, setup: &Setup, depth: usize, pairs: bool, probes: bool, stats: &mut Stats) {
+    check_program_sharded(prog, setup, depth, pairs, probes, stats, 0, 1)
+}
+
+/// the same for the choice paths whose index is `shard` modulo `nshards`
+#[allow(clippy::too_many_arguments)]
+pub fn check_program_sharded(prog: &Rc<Prog>, setup: &Setup, depth: usize, pairs: bool, probes: bool, stats: &mut Stats, shard: usize, nshards: usize) {
     // all complete choice paths up to `depth` ops
     // paths of the default flow, and the same paths played inside a named flow
     let sig = |o: &Value, h: &[Op]| {
@@ -151,8 +157,10 @@ pub fn check_program(prog: &Rc<Prog>, setup: &Setup, depth: usize, pairs: bool, 
         }
         true
     });
-    stats.add("paths", paths.len() as u64);
-    for path in &paths {
+    if shard == 0 {
+        stats.add("paths", paths.len() as u64);
+    }
+    for path in paths.iter().enumerate().filter(|(i, _)| i % nshards == shard).map(|(_, p)| p) {
         let Some((be, bf, steps, fuel)) = transcript(prog, setup, path) else { continue };
         if fuel {
             stats.inc("fuel_exhausted");
@@ -185,8 +193,9 @@ pub fn check_program(prog: &Rc<Prog>, setup: &Setup, depth: usize, pairs: bool, 
                         compare(prog, setup, &base, &v, "two-pauses", "", stats);
                     }
                 }
-                // (4) probes at this pause point
-                if probes {
+                // (4) probes at this pause point (quick tier: at the first, middle and last pause
+                // position of the line; thorough: at every one)
+                if probes && (pairs || p == 1 || p == n / 2 || p + 1 == n) {
                     for (kind, probe, must_refuse) in probe_ops(prog, setup) {
                         let mut v = path[..j].to_vec();
                         v.push(Op::ContAsync(p));
@@ -244,31 +253,36 @@ pub fn check_program(prog: &Rc<Prog>, setup: &Setup, depth: usize, pairs: bool, 
 pub fn run(tier: Tier) -> i32 {
     let started = std::time::Instant::now();
     let (depth, k, a, pairs, secs) = match tier {
-        Tier::Quick => (8, 2, 8, false, 45),
+        Tier::Quick => (8, 1, 16, false, 50),
         Tier::Thorough => (12, 3, 16, true, 1800),
     };
     let set = program_set(k, a, 0);
     let ctl = RunCtl::new(secs);
-    let (stats, done) = par_cases(set.len(), &ctl, |i, st| {
+    const SHARDS: usize = 6;
+    let (stats, done) = par_cases(set.len() * SHARDS, &ctl, |n, st| {
+        let (i, shard) = (n / SHARDS, n % SHARDS);
         if let Some(p) = set[i].load() {
             for safe in [false, true] {
                 let mut su = super::c09::setup_for(&p);
                 su.bind_externals = Some(safe);
                 // probes once per program (with unsafe externals)
-                check_program(&p, &su, depth, pairs, !safe, st);
+                check_program_sharded(&p, &su, depth, pairs, !safe, st, shard, SHARDS);
                 if p.externals.is_empty() {
                     break;
                 }
             }
-            st.inc("programs");
-        } else {
+            if shard == 0 {
+                st.inc("programs");
+            }
+        } else if shard == 0 {
             st.inc("rejected_by_compiler");
         }
     });
+    let done = done / SHARDS;
     let mut extra = mc_extras(
         &stats,
         json!({"path_depth_ops": depth, "segment_family": [k, a], "programs": set.len(), "programs_done": done,
-               "pause_placements": if pairs { "every single position, all pairs p<q per line (lines <= 25 steps), pause after every step" } else { "every single position, pause after every step" }}),
+               "pause_placements": if pairs { "every single position, all pairs p<q per line (lines <= 25 steps), pause after every step" } else { "every single position, pause after every step; host-call probes at the first, middle and last pause position of every line" }}),
         set.len(),
         done,
         secs,
